@@ -11,7 +11,7 @@ pub fn owned_signature(trace: &Trace, owners: &[&str]) -> Option<String> {
     let opkind = trace.ops[step].kind();
     r.violations
         .iter()
-        .find(|v| owners.contains(&v.owner))
+        .find(|v| v.owned_by(owners))
         .map(|v| format!("{}|{}", v.signature(), opkind))
 }
 
